@@ -320,6 +320,21 @@ impl Check for C07 {
                         let rs = numlit::respell(&mut r, l);
                         check_literal(ctx, rs.as_bytes());
                         check_literal(ctx, format!("-{}", l).as_bytes());
+                        if l.len() < 400 {
+                            check_literal(ctx, numlit::respell_int(&mut r, l).as_bytes());
+                        }
+                    }
+                    // ties of at most 19 significant digits (the whole significand fits the fast
+                    // path's 64-bit integer), spelled with an integer significand and an exponent
+                    for _ in 0..2 {
+                        if let Some(lits) = numlit::halfway(numlit::short_tie_base(&mut r)) {
+                            for l in &lits {
+                                check_literal(ctx, l.as_bytes());
+                                check_literal(ctx, numlit::respell_int(&mut r, l).as_bytes());
+                                check_literal(ctx, numlit::respell(&mut r, l).as_bytes());
+                            }
+                            ctx.class("gen:short-tie");
+                        }
                     }
                     // deviations from the tie that lie beyond the 768th significant digit
                     let x2 = match r.below(3) {
@@ -363,6 +378,6 @@ impl Check for C07 {
         }
     }
     fn required_classes(&self, _b: &str, _t: Tier) -> Vec<&'static str> {
-        vec!["gen:exhaustive-small-grammar", "gen:digit-counts", "gen:powers-of-ten", "gen:halfway", "gen:halfway-far-deviation", "gen:halfway-subnormal", "gen:hostile", "class:u64", "class:i64", "class:f64", "class:infinite", "literal:invalid", "literal:>19-bytes"]
+        vec!["gen:exhaustive-small-grammar", "gen:digit-counts", "gen:powers-of-ten", "gen:halfway", "gen:short-tie", "gen:halfway-far-deviation", "gen:halfway-subnormal", "gen:hostile", "class:u64", "class:i64", "class:f64", "class:infinite", "literal:invalid", "literal:>19-bytes"]
     }
 }
